@@ -200,8 +200,8 @@ def task_nat(t):
         tuples = itertools.product(*lists)
     if rand_n:
         rng = random.Random(f"c05/{seed}/nat-rand/{label}")
-        n = len(vals)
-        tuples = itertools.chain(tuples, (tuple(rng.randrange(n) for _ in range(slots + 1)) for _ in range(rand_n)))
+        ok = [i for i, (c, _v) in enumerate(g["pool"]) if c != "slow"]
+        tuples = itertools.chain(tuples, (tuple(rng.choice(ok) for _ in range(slots + 1)) for _ in range(rand_n)))
     tame = p.tame
     cases = []
     idxs = []
@@ -217,8 +217,9 @@ def task_nat(t):
         return acc.pack()
     prog = p.text()
     c = mon(profile)
+    max_s = 20 + len(cases) / 1000.0
     t0 = time.time()
-    r = c.evalc(prog, cases, take=4, stream=[None, {"i": "1"}], chunk=64, timeout=timeout, death_budget=6)
+    r = c.evalc(prog, cases, take=4, stream=[None, {"i": "1"}], chunk=64, timeout=timeout, death_budget=6, max_seconds=max_s)
     dt = time.time() - t0
     st = judge_evalc(acc, r, prog, cases, profile, f"native {label}: {prog}", 4, stream=[None, {"i": "1"}])
     if st == "compile_error":
@@ -227,7 +228,8 @@ def task_nat(t):
     acc.cases += len(cases)
     nskip = acc.codes.get("S", 0)
     if nskip:
-        acc.inconc["skipped-after-death-budget"] += nskip
+        acc.inconc["skipped-after-time-guard" if r.get("time_guard") else "skipped-after-death-budget"] += nskip
+        acc.notes.append(f"{label}: {nskip} of {len(cases)} cases not run ({'time guard' if r.get('time_guard') else 'death budget'})")
     if any(ch in "ecxh" for ch in r["codes"] if ch):
         acc.covered.add(f"{p.name}/{p.arity}" if p.kind != "op" else p.label)
     g_pool = g["pool"]
@@ -250,7 +252,7 @@ def nat_tasks(progs, run, pool):
     """the tuple plan per program, cut into tasks of bounded size"""
     quick = run.tier == "quick"
     rng = run.rng("nat-plan")
-    allidx = list(range(len(pool)))
+    allidx = [i for i, (c, _v) in enumerate(pool) if c != "slow"]
     p1 = N.thin(pool, 12, rng) if quick else allidx          # primary programs, one slot
     v1 = N.thin(pool, 4, rng) if quick else N.thin(pool, 8, rng)   # filter-argument variants, one slot
     p2 = N.thin(pool, 2, rng) if quick else N.thin(pool, 4, rng)
@@ -264,7 +266,7 @@ def nat_tasks(progs, run, pool):
     tasks = []
     sizes = collections.Counter()
 
-    def add(p, lists, rn=0, timeout=4.0, limit=None):
+    def add(p, lists, rn=0, timeout=6.0, limit=None):
         if lists:
             lists = [list(l) for l in lists]
             limit = limit or prod_cap
@@ -293,6 +295,9 @@ def nat_tasks(progs, run, pool):
     for p in progs:
         k = p.slots
         primary = set(p.funsig.split(",")) <= {"$", ""}
+        sl = N.domain_slots(p, pool, rng, scale, slow_only=True)
+        if sl and primary:
+            add(p, sl, timeout=20.0)
         if k == 0:
             add(p, [allidx])
         elif k == 1:
@@ -316,7 +321,7 @@ def nat_tasks(progs, run, pool):
 # workload 1: filter texts
 
 def task_filt(t):
-    _k, profile, idx, n, seed, do_parse = t
+    _k, profile, idx, n, seed, do_parse, nfilt = t
     g = G()
     if "seeds" not in g:
         g["seeds"] = F.doc_seeds(build.REPO)
@@ -327,8 +332,8 @@ def task_filt(t):
     c = mon(profile, *mem)
     inputs = [enc(v) for v in FILT_INPUTS]
     for j in range(n):
-        if idx == 0 and j < len(seeds):
-            op, text = "seed", seeds[j]
+        if idx + j * nfilt < len(seeds):
+            op, text = "seed", seeds[idx + j * nfilt]     # the unmutated seeds, spread over the tasks
         else:
             op, text = F.mutate(rng, seeds)
         if len(text) > 20000:
@@ -788,7 +793,7 @@ def replay(run):
 
 def main():
     run = Run("C05")
-    build.jaqmon("verif")
+    M.bin_path("verif")
     if run.replay:
         return replay(run)
     quick = run.tier == "quick"
@@ -800,7 +805,7 @@ def main():
     nfilt = run.size(48, 640)
     per_filt = 700
     for i in range(nfilt):
-        tasks.append(("filt", "verif", i, per_filt if i else max(per_filt, 900), run.seed, True))
+        tasks.append(("filt", "verif", i, per_filt, run.seed, True, nfilt))
     ndoc = run.size(2, 30)
     for fmt in D.FORMATS:
         for i in range(ndoc if fmt not in ("raw", "raw0") else 1):
@@ -816,15 +821,15 @@ def main():
             if rrng.random() < (0.12 if quick else 0.08):
                 rel.append(t[:1] + ("release",) + t[2:])
         elif rrng.random() < 0.2:
-            rel.append(t[:1] + ("release",) + t[2:] if t[0] != "filt" else ("filt", "release") + t[2:5] + (False,))
-    build.jaqmon("release")
-    build.cli()
+            rel.append(t[:1] + ("release",) + t[2:] if t[0] != "filt" else ("filt", "release") + t[2:5] + (False, nfilt))
+    M.bin_path("release")
+    M.bin_path("cli")
     # CLI slice
-    ncli = run.size(6, 60)
+    ncli = run.size(8, 120)
     cli_tasks = []
     for i in range(ncli):
-        cli_tasks.append(("cli", "filt", i, 60, run.seed, None))
-        cli_tasks.append(("cli", "doc", i, 60, run.seed, None))
+        cli_tasks.append(("cli", "filt", i, 20, run.seed, None))
+        cli_tasks.append(("cli", "doc", i, 20, run.seed, None))
     rng = run.rng("order")
     # big tasks first, so that the tail is short
     tasks = tasks + rel
@@ -875,14 +880,14 @@ def main():
     # second wave: natives and writer values at the real CLI (needs finished cases from the first wave)
     rng2 = run.rng("cli-nat")
     rng2.shuffle(cli_cand)
-    want = run.size(480, 6000)
+    want = run.size(320, 6000)
     cli2 = []
     cand = cli_cand[:want]
-    for i in range(0, len(cand), 40):
-        cli2.append(("cli", "nat", i, 0, run.seed, cand[i:i + 40]))
-    wvals = shaped_values(run.rng("cli-wr"), [v for _c, v in pool], run.size(160, 2000))
-    for i in range(0, len(wvals), 40):
-        cli2.append(("cli", "wr", i, 0, run.seed, [(".", enc(v)) for v in wvals[i:i + 40]]))
+    for i in range(0, len(cand), 20):
+        cli2.append(("cli", "nat", i, 0, run.seed, cand[i:i + 20]))
+    wvals = shaped_values(run.rng("cli-wr"), [v for _c, v in pool], run.size(120, 2000))
+    for i in range(0, len(wvals), 20):
+        cli2.append(("cli", "wr", i, 0, run.seed, [(".", enc(v)) for v in wvals[i:i + 20]]))
     for out in par.pmap(task, cli2, run.jobs):
         absorb(out)
 
